@@ -198,9 +198,11 @@ func (s *c20DB) addRel(graphName string, id, start, end graph.ID, kind string, p
 	sort.Slice(g.rels, func(i, j int) bool { return g.rels[i].ID < g.rels[j].ID })
 }
 
-// canonical renders the graphs independently of the IDs the database assigned: nodes in ID order
-// as (kinds, properties), relationships in ID order as (start position, end position, kind,
-// properties). Dump writes in ID order and Load creates in file order, so positions are stable.
+// canonical renders the graphs up to the identifiers AND the creation order the database chose: a node is
+// named by its (kinds, properties) rendering (the generator gives every node of a graph a unique `name`
+// property), nodes are sorted, relationships are rendered by the names of their endpoints and sorted (a
+// multiset: parallel relationships stay distinct lines). A manifest whose file entries were consistently
+// reordered therefore still reproduces "the same graph"; any lost, added or changed entity does not.
 func (s *c20DB) canonical() string {
 	names := []string{}
 	for name, g := range s.graphs {
@@ -212,21 +214,27 @@ func (s *c20DB) canonical() string {
 	var b strings.Builder
 	for _, name := range names {
 		g := s.graphs[name]
-		pos := map[graph.ID]int{}
+		key := map[graph.ID]string{}
 		fmt.Fprintf(&b, "graph %s\n", name)
-		for i, n := range g.nodes {
-			pos[n.ID] = i
+		lines := []string{}
+		for _, n := range g.nodes {
 			kinds := n.Kinds.Strings()
 			sort.Strings(kinds)
-			fmt.Fprintf(&b, " n%d %s %s\n", i, strings.Join(kinds, "|"), c20JSON(n.Properties.MapOrEmpty()))
+			key[n.ID] = strings.Join(kinds, "|") + " " + c20JSON(n.Properties.MapOrEmpty())
+			lines = append(lines, " n "+key[n.ID])
 		}
+		sort.Strings(lines)
+		b.WriteString(strings.Join(lines, "\n") + "\n")
+		lines = lines[:0]
 		for _, r := range g.rels {
 			kind := ""
 			if r.Kind != nil {
 				kind = r.Kind.String()
 			}
-			fmt.Fprintf(&b, " e %d->%d %s %s\n", pos[r.StartID], pos[r.EndID], kind, c20JSON(r.Properties.MapOrEmpty()))
+			lines = append(lines, fmt.Sprintf(" e (%s)->(%s) %s %s", key[r.StartID], key[r.EndID], kind, c20JSON(r.Properties.MapOrEmpty())))
 		}
+		sort.Strings(lines)
+		b.WriteString(strings.Join(lines, "\n") + "\n")
 	}
 	return b.String()
 }
